@@ -16,7 +16,8 @@
 (*   sub-dictionary (/Font or /XObject) is one shared indirect object while the pages use  *)
 (*   different entries of it - without and with a /Resources entry lacking that category   *)
 (*   on the ancestor node); duplicate content streams;                                     *)
-(*   unreferenced objects; optimizer switches.                                            *)
+(*   unreferenced objects; the input's own layout (classic / object stream); private      *)
+(*   page-piece data sharing objects with the visible pages; optimizer switches.           *)
 (* Class(r) is the appearance of a resource: resources of different classes look          *)
 (* different, so a page must show Class(use[p]) before and after every Optimize step.     *)
 EXTENDS Integers, Sequences, FiniteSets, TLC, Json
@@ -26,9 +27,9 @@ CONSTANTS MaxPages, MaxRes, Kinds, Emit
 VARIABLES pc, sh, phase, removed
 vars == <<pc, sh, phase, removed>>
 
-Dims == <<"np", "kind", "nres", "rel", "use", "layout", "dupcontent", "unref", "optdupcs", "optres", "xsos">>
+Dims == <<"np", "kind", "nres", "rel", "use", "layout", "dupcontent", "unref", "instm", "private", "optdupcs", "optres", "xsos">>
 
-Unset == [np |-> 0, kind |-> "", nres |-> 0, rel |-> <<>>, use |-> <<>>, layout |-> "", dupcontent |-> FALSE, unref |-> FALSE,
+Unset == [np |-> 0, kind |-> "", nres |-> 0, rel |-> <<>>, use |-> <<>>, layout |-> "", dupcontent |-> FALSE, unref |-> FALSE, instm |-> FALSE, private |-> "",
           optdupcs |-> FALSE, optres |-> FALSE, xsos |-> ""]
 
 Rels == {"equal", "near", "nearnull", "distinct"}
@@ -42,6 +43,9 @@ Dom(d, s) ==
     [] d = "layout"     -> {"own", "ownmin", "shared", "inherited", "sharedsub", "sharedsubanc"}
     [] d = "dupcontent" -> BOOLEAN
     [] d = "unref"      -> BOOLEAN
+    [] d = "instm"      -> BOOLEAN      \* the input keeps its non-stream objects in an object stream (read lazily)
+    [] d = "private"    -> {"none", "page", "root", "both"}   \* page-piece (PieceInfo) data in its own indirect objects, several
+                                        \* levels deep, that references resources the pages also use
     [] d = "optdupcs"   -> BOOLEAN      \* conf.OptimizeDuplicateContentStreams
     [] d = "optres"     -> BOOLEAN      \* conf.OptimizeResourceDicts
     [] d = "xsos"       -> {"00", "11"}
